@@ -1,6 +1,405 @@
-//! C14 — not implemented yet.
-use crate::report::{Cfg, Report};
+//! C14 — polynomial regression returns the least-squares polynomial (DESIGN §3 C14).
+//!
+//! Events: every `PolynomialRegressor::fit` (the `coef` field afterwards, or a panic) and every
+//! `::predict`.
+//! Oracle: everything is recomputed from the returned coefficients in double-double with exact
+//! powers of x: residual r = y − Σ c_j x^j, gradient g_j = rᵀx^j, RSS; the reference minimiser is
+//! `linref::ridge_ls` with zero penalty on the harness's own (correctly rounded) Vandermonde design.
+//! The a-priori accuracy of normal equations solved through a Cholesky inverse is
+//! `‖D(ĉ − c*)‖ ≲ ε·κ(G_s)·‖y‖` (D = column norms, G_s = column-scaled Gram matrix), hence
+//! plus the γ_n·κ(G_s)·‖y‖ that forming VᵀV and Vᵀy by recursive summation of n terms costs
+//! (visible at degree 0, n ≈ 2000, constant y: 150 ε). With B = (64·ε + 4·γ_n)·κ(G_s)·‖y‖:
+//!   * orthogonality   |rᵀx^j| / ‖x^j‖            ≤ B
+//!   * optimality      sqrt(RSS_lib − RSS_ref)     ≤ B   (= ‖V(ĉ − c*)‖ by Pythagoras)
+//!   * 2(d+1) coordinate perturbations of relative size 1e-4 must not lower the RSS by more than that
+//!   * polynomial data (noise 0): D|ĉ − c_true| within the same bound, exact-integer cases to 1e-9
+//!   * predict vs Horner in double-double within γ_{2d+2}·Σ|c_j||x|^j (Higham's bound for Horner).
+//! DESIGN normalises the first two by ‖r‖ resp. RSS_qr; that is unsound for noise-free or
+//! small-noise data (r is itself rounding-sized there), so the bound is stated against ‖y‖, which
+//! is what the rounding analysis gives. κ(G_s) comes from the harness's Jacobi eigen-solver; cases with
+//! (64·ε + 4·γ_n)·κ > 1e-3 are counted as vacuous (nothing can be demanded of normal equations there).
+use crate::gen::Rng;
+use crate::oracle::dd::{gamma_n, Dd};
+use crate::oracle::linref;
+use crate::report::{guard, jf, jnum, par_cases, Cfg, Hasher, Report};
+use compute::predict::PolynomialRegressor;
+use serde_json::json;
 
-pub fn run(_cfg: &Cfg, rep: &mut Report) {
-    rep.inconclusive("monitor for C14 not implemented".to_string());
+const EPS: f64 = f64::EPSILON;
+/// constant of the a-priori bound (worst observed on the unchanged tree is recorded in notes)
+const C_OPT: f64 = 64.0;
+/// above this the bound is vacuous
+const VACUOUS: f64 = 1e-3;
+
+const KINDS: [&str; 4] = ["uniform", "clustered", "chebyshev", "integer"];
+
+fn abscissae(rng: &mut Rng, kind: &str, n: usize, d: usize) -> Vec<f64> {
+    match kind {
+        "uniform" => (0..n).map(|_| rng.range(-2.0, 2.0)).collect(),
+        "clustered" => {
+            let k = rng.usize(2, 6);
+            let centres: Vec<f64> = (0..k).map(|_| rng.range(-1.8, 1.8)).collect();
+            let width = rng.log_range(0.05, 0.5);
+            (0..n)
+                .map(|i| {
+                    let c = centres[i % k];
+                    (c + width * rng.normal()).clamp(-2.0, 2.0)
+                })
+                .collect()
+        }
+        "chebyshev" => {
+            let mut v: Vec<f64> = (0..n).map(|k| 2.0 * ((2 * k + 1) as f64 * std::f64::consts::PI / (2 * n) as f64).cos()).collect();
+            rng.shuffle(&mut v);
+            v
+        }
+        _ => {
+            // integer lattice {-2..2}: d+1 <= 5 distinct values guaranteed by construction
+            let mut vals = [-2.0, -1.0, 0.0, 1.0, 2.0];
+            rng.shuffle(&mut vals);
+            let mut v: Vec<f64> = (0..n).map(|i| if i <= d { vals[i] } else { vals[rng.usize(0, 4)] }).collect();
+            rng.shuffle(&mut v);
+            v
+        }
+    }
+}
+
+fn n_distinct(x: &[f64]) -> usize {
+    let mut s: Vec<u64> = x.iter().map(|v| (v + 0.0).to_bits()).collect();
+    s.sort_unstable();
+    s.dedup();
+    s.len()
+}
+
+/// exact powers x^0..x^d of every abscissa in double-double, row-major n×(d+1)
+fn powers(x: &[f64], d: usize) -> Vec<Dd> {
+    let m = d + 1;
+    let mut p = vec![Dd::ONE; x.len() * m];
+    for (i, &xi) in x.iter().enumerate() {
+        for j in 1..m {
+            p[i * m + j] = p[i * m + j - 1] * xi;
+        }
+    }
+    p
+}
+
+fn rss_dd(p: &[Dd], y: &[f64], c: &[Dd], m: usize) -> Dd {
+    let mut s = Dd::ZERO;
+    for i in 0..y.len() {
+        let mut f = Dd::ZERO;
+        for j in 0..m {
+            f = f + p[i * m + j] * c[j];
+        }
+        let r = Dd::new(y[i]) - f;
+        s = s + r * r;
+    }
+    s
+}
+
+fn horner_dd(c: &[f64], x: f64) -> Dd {
+    let mut acc = Dd::ZERO;
+    for &cj in c.iter().rev() {
+        acc = acc * x + cj;
+    }
+    acc
+}
+
+/// predict vs Horner in double-double; returns worst error/bound ratio (inf on shape mismatch)
+fn check_predict(rep: &mut Report, regime: &str, coef: &[f64], xs: &[f64]) {
+    let mut model = PolynomialRegressor::new(coef.len().saturating_sub(1));
+    model.coef = coef.to_vec();
+    let got = guard(|| model.predict(xs));
+    match got {
+        Err(msg) => {
+            rep.check("C14.predict.no_panic", regime, false, || json!({"coef": jf(coef), "x": jf(xs), "panic": msg}));
+        }
+        Ok(got) => {
+            rep.check("C14.predict.no_panic", regime, true, || json!(null));
+            if !rep.check("C14.predict.len", regime, got.len() == xs.len(), || json!({"coef": jf(coef), "n_x": xs.len(), "n_out": got.len()})) {
+                return;
+            }
+            let g = gamma_n(2 * coef.len() + 2);
+            let mut worst = 0.0f64;
+            let mut at = 0usize;
+            for (i, &x) in xs.iter().enumerate() {
+                let r = horner_dd(coef, x);
+                let cond: f64 = coef.iter().rev().fold(0.0, |acc, c| acc * x.abs() + c.abs());
+                let bound = g * cond + f64::MIN_POSITIVE;
+                let err = (Dd::new(got[i]) - r).f().abs();
+                let ratio = if r.f().is_nan() && got[i].is_nan() {
+                    0.0
+                } else if err.is_nan() {
+                    f64::INFINITY
+                } else {
+                    err / bound
+                };
+                if ratio > worst {
+                    worst = ratio;
+                    at = i;
+                }
+            }
+            rep.note_max("worst_ratio.predict_vs_horner_bound", worst);
+            rep.check("C14.predict.horner", regime, worst <= 1.0, || {
+                json!({"coef": jf(coef), "x": jnum(xs[at]), "observed": jnum(got[at]), "expected": jnum(horner_dd(coef, xs[at]).f()), "error_over_bound": jnum(worst)})
+            });
+        }
+    }
+}
+
+struct Case {
+    kind: &'static str,
+    d: usize,
+    x: Vec<f64>,
+    y: Vec<f64>,
+    truth: Vec<f64>,
+    sigma: f64,
+    exact_int: bool,
+}
+
+fn gen_case(i: usize, rng: &mut Rng) -> Case {
+    let kind = KINDS[i % 4];
+    let exact_int = kind == "integer" && rng.chance(0.5);
+    let mut d = (i / 4) % 7;
+    if kind == "integer" {
+        d = d.min(4);
+    }
+    if exact_int {
+        d = d.min(3);
+    }
+    let n = match rng.usize(0, 9) {
+        0 => d + 1,
+        1..=3 => rng.usize(d + 2, 30),
+        4..=7 => rng.usize(30, 300),
+        _ => rng.usize(300, 2000),
+    };
+    let mut x = abscissae(rng, kind, n, d);
+    // the property needs >= d+1 distinct abscissae; continuous draws that collide (clamping) are re-drawn
+    let mut tries = 0;
+    while n_distinct(&x) < d + 1 && tries < 20 {
+        x = abscissae(rng, if tries > 10 { "uniform" } else { kind }, n, d);
+        tries += 1;
+    }
+    let truth: Vec<f64> = if exact_int { (0..=d).map(|_| rng.int(-5, 5) as f64).collect() } else { (0..=d).map(|_| rng.range(-3.0, 3.0)).collect() };
+    let sigma = if exact_int || rng.chance(0.2) { 0.0 } else { rng.log_range(1e-8, 1e4) };
+    let y: Vec<f64> = x.iter().map(|&xi| horner_dd(&truth, xi).f() + if sigma > 0.0 { sigma * rng.normal() } else { 0.0 }).collect();
+    Case { kind, d, x, y, truth, sigma, exact_int }
+}
+
+fn one_fit(rep: &mut Report, c: &Case) {
+    let (d, m, n) = (c.d, c.d + 1, c.x.len());
+    let noise = if c.sigma == 0.0 { "exact" } else { "noisy" };
+    let regime = format!("fit:{}:{}", c.kind, noise);
+    rep.case(&regime);
+    rep.seen(&format!("deg={}", d), 1);
+    if n == m {
+        rep.seen("n=d+1", 1);
+    }
+    if c.exact_int {
+        rep.seen("exact-integer", 1);
+    }
+    rep.distinct(
+        Hasher::new().s(c.kind).u(d as u64).u(n as u64).f(c.sigma).f(c.x[0]).f(c.y[0]).f(c.x[n - 1]).finish(),
+        d >= 1 && c.sigma > 0.0 && n > m,
+    );
+    let input = |extra: serde_json::Value| json!({"degree": d, "n": n, "kind": c.kind, "sigma": c.sigma, "x": jf(&c.x), "y": jf(&c.y), "true_coef": jf(&c.truth), "detail": extra});
+
+    let fitted = guard(|| {
+        let mut model = PolynomialRegressor::new(d);
+        model.fit(&c.x, &c.y);
+        model.coef
+    });
+    let coef = match fitted {
+        Err(msg) => {
+            rep.check("C14.fit.no_panic", &regime, false, || input(json!({"panic": msg})));
+            return;
+        }
+        Ok(cf) => {
+            rep.check("C14.fit.no_panic", &regime, true, || json!(null));
+            cf
+        }
+    };
+    if !rep.check("C14.coef.len", &regime, coef.len() == m, || input(json!({"coef": jf(&coef)}))) {
+        return;
+    }
+
+    // ---- oracle quantities in double-double
+    let p = powers(&c.x, d);
+    let mut gram = vec![Dd::ZERO; m * m];
+    for i in 0..n {
+        for a in 0..m {
+            for b in a..m {
+                gram[a * m + b] = gram[a * m + b] + p[i * m + a] * p[i * m + b];
+            }
+        }
+    }
+    let colnorm: Vec<f64> = (0..m).map(|j| gram[j * m + j].sqrt().f()).collect();
+    let mut gs = vec![0.0; m * m];
+    for a in 0..m {
+        for b in a..m {
+            let v = (gram[a * m + b] / (Dd::new(colnorm[a]) * colnorm[b])).f();
+            gs[a * m + b] = v;
+            gs[b * m + a] = v;
+        }
+    }
+    let ev = linref::jacobi_eigenvalues(&gs, m);
+    let kappa = if ev[0] > 0.0 { ev[m - 1] / ev[0] } else { f64::INFINITY };
+    let ynorm = c.y.iter().fold(Dd::ZERO, |s, &v| s + Dd::prod(v, v)).sqrt().f();
+    let rel = (C_OPT * EPS + 4.0 * gamma_n(n)) * kappa;
+    rep.note_max("kappa_scaled_gram_max", if kappa.is_finite() { kappa } else { 1e300 });
+    let vacuous = !(rel <= VACUOUS);
+    if vacuous {
+        rep.seen("vacuous:kappa-too-large", 1);
+    } else {
+        rep.seen(&format!("checked:{}", c.kind), 1);
+        let bound = rel * ynorm;
+        let finite = coef.iter().all(|v| v.is_finite());
+        if rep.check("C14.coef.finite", &regime, finite, || input(json!({"coef": jf(&coef), "kappa": kappa}))) {
+            let cd: Vec<Dd> = coef.iter().map(|&v| Dd::new(v)).collect();
+            // residual and gradient
+            let mut g = vec![Dd::ZERO; m];
+            let mut rss = Dd::ZERO;
+            for i in 0..n {
+                let mut f = Dd::ZERO;
+                for j in 0..m {
+                    f = f + p[i * m + j] * cd[j];
+                }
+                let r = Dd::new(c.y[i]) - f;
+                rss = rss + r * r;
+                for j in 0..m {
+                    g[j] = g[j] + r * p[i * m + j];
+                }
+            }
+            // (1) orthogonality of the residual to every power
+            let mut worst = 0.0f64;
+            let mut wj = 0;
+            for j in 0..m {
+                let v = g[j].f().abs() / colnorm[j];
+                let ratio = if bound > 0.0 { v / bound } else if v == 0.0 { 0.0 } else { f64::INFINITY };
+                if ratio > worst {
+                    worst = ratio;
+                    wj = j;
+                }
+            }
+            rep.note_max("worst_ratio.orthogonality_over_bound", worst);
+            rep.note_max(&format!("worst_ratio.orthogonality_over_bound.deg{}", d), worst);
+            rep.check("C14.residual.orthogonal", &regime, worst <= 1.0, || {
+                input(json!({"coef": jf(&coef), "power": wj, "r_dot_xj_over_norm": jnum(g[wj].f().abs() / colnorm[wj]), "bound": bound, "kappa": kappa, "ratio": jnum(worst)}))
+            });
+            // (2) RSS against the reference least-squares solution
+            let vf: Vec<f64> = p.iter().map(|v| v.f()).collect();
+            match linref::ridge_ls(&vf, &c.y, None, &vec![0.0; m], n, m) {
+                None => rep.inconclusive(format!("C14: reference least squares failed (kappa {:.3e})", kappa)),
+                Some(cref) => {
+                    let crd: Vec<Dd> = cref.iter().map(|&v| Dd::new(v)).collect();
+                    let rss_ref = rss_dd(&p, &c.y, &crd, m);
+                    let excess = (rss - rss_ref).f().max(0.0).sqrt();
+                    let ratio = if bound > 0.0 { excess / bound } else if excess == 0.0 { 0.0 } else { f64::INFINITY };
+                    rep.note_max("worst_ratio.rss_excess_over_bound", ratio);
+                    rep.check("C14.rss.minimal_vs_reference", &regime, ratio <= 1.0, || {
+                        input(json!({"coef": jf(&coef), "reference_coef": jf(&cref), "rss": jnum(rss.f()), "rss_reference": jnum(rss_ref.f()), "sqrt_excess": excess, "bound": bound, "kappa": kappa}))
+                    });
+                }
+            }
+            // (3) coordinate perturbations must not lower the RSS (beyond the rounding slack)
+            let slack = bound * bound;
+            let mut bad: Option<(usize, f64, f64)> = None;
+            for j in 0..m {
+                let h = 1e-4 * coef[j].abs().max(if ynorm > 0.0 { 1e-3 * ynorm / colnorm[j] } else { 1.0 });
+                for s in [1.0, -1.0] {
+                    let mut cp = cd.clone();
+                    cp[j] = cp[j] + s * h;
+                    let r2 = rss_dd(&p, &c.y, &cp, m);
+                    let gain = (rss - r2).f();
+                    if gain > slack && bad.is_none() {
+                        bad = Some((j, s * h, gain));
+                    }
+                    if slack > 0.0 {
+                        rep.note_max("worst_ratio.perturbation_gain_over_slack", gain / slack);
+                    }
+                }
+            }
+            rep.check("C14.rss.no_perturbation_lowers", &regime, bad.is_none(), || {
+                let (j, h, gain) = bad.unwrap();
+                input(json!({"coef": jf(&coef), "coordinate": j, "step": h, "rss": jnum(rss.f()), "rss_gain": gain, "slack": slack}))
+            });
+            // (4) polynomial data are reproduced
+            if c.sigma == 0.0 {
+                let mut worst = 0.0f64;
+                for j in 0..m {
+                    let v = (coef[j] - c.truth[j]).abs() * colnorm[j];
+                    worst = worst.max(if bound > 0.0 { v / bound } else if v == 0.0 { 0.0 } else { f64::INFINITY });
+                }
+                rep.note_max("worst_ratio.reproduce_coef_over_bound", worst);
+                rep.check("C14.reproduce.coef", &regime, worst <= 1.0, || input(json!({"coef": jf(&coef), "bound_scaled": bound, "kappa": kappa, "ratio": jnum(worst)})));
+                if c.exact_int {
+                    let e = coef.iter().zip(&c.truth).map(|(a, b)| (a - b).abs()).fold(0.0, f64::max);
+                    rep.note_max("worst_abs.exact_integer_coef_error", e);
+                    rep.check("C14.reproduce.exact_integer", &regime, e <= 1e-9, || input(json!({"coef": jf(&coef), "max_abs_error": e})));
+                }
+                let pred = guard(|| {
+                    let mut mdl = PolynomialRegressor::new(d);
+                    mdl.coef = coef.clone();
+                    mdl.predict(&c.x)
+                });
+                if let Ok(pred) = pred {
+                    if pred.len() == n {
+                        let e = pred.iter().zip(&c.y).map(|(a, b)| (a - b).abs()).fold(0.0, f64::max);
+                        let lim = m as f64 * bound + 8.0 * EPS * ynorm;
+                        if lim > 0.0 {
+                            rep.note_max("worst_ratio.reproduce_values", e / lim);
+                        }
+                        rep.check("C14.reproduce.values", &regime, e <= lim, || input(json!({"coef": jf(&coef), "max_abs_error": e, "limit": lim})));
+                    }
+                }
+            }
+        }
+    }
+    // (5) predict evaluates c0 + c1 x + ... at each point (with whatever the fit returned)
+    if coef.iter().all(|v| v.is_finite()) {
+        check_predict(rep, &regime, &coef, &c.x);
+    }
+    rep.sample(|| json!({"degree": d, "n": n, "kind": c.kind, "sigma": c.sigma, "coef": jf(&coef), "true_coef": jf(&c.truth), "kappa_scaled_gram": jnum(kappa)}));
+}
+
+pub fn run(cfg: &Cfg, rep: &mut Report) {
+    rep.rule = "case i: abscissa kind = i mod 4 (uniform, clustered, Chebyshev, integer lattice in [-2,2]), degree = (i/4) mod 7 (integer lattice: <= 4), n in {d+1, d+2..30, 30..300, 300..2000}, y = polynomial(coef in [-3,3]) + sigma*normal with sigma = 0 (20%) or log-uniform 1e-8..1e4; exact-integer cases: lattice abscissae, integer coefficients in -5..5, degree <= 3, no noise. Then direct predict cases with arbitrary distinct coefficients. non-trivial = degree >= 1, noise > 0 and n > d+1 (optimality rather than interpolation); distinct by (kind, degree, n, sigma, first/last point)".into();
+    rep.assume("at least degree+1 distinct abscissae (ensured by the generator)");
+    rep.assume("abscissae in [-2,2], finite responses; cases whose column-scaled Gram matrix has (64*eps + 4*gamma_n)*kappa > 1e-3 are counted as vacuous (only shape, finiteness of predict and Horner evaluation are checked there)");
+    rep.assume("optimality bounds are stated relative to ||y|| (a-priori error of normal equations), not relative to ||r|| as DESIGN wrote: the latter is unsound for noise-free data");
+    let n = cfg.pick(600, 15000, 40);
+    par_cases(cfg, rep, 1, n, |i, rng: &mut Rng, rep| {
+        let c = gen_case(i, rng);
+        one_fit(rep, &c);
+    });
+    // direct predict cases: the coefficient order must be c0 + c1 x + ... (distinct coefficients)
+    let np = cfg.pick(200, 5000, 20);
+    par_cases(cfg, rep, 2, np, |i, rng: &mut Rng, rep| {
+        let d = i % 7;
+        let coef: Vec<f64> = (0..=d).map(|j| (j as f64 + 1.0) * if rng.bool() { 1.0 } else { -1.0 } + rng.range(0.0, 0.5)).collect();
+        let mut xs: Vec<f64> = (0..rng.usize(0, 40)).map(|_| if rng.chance(0.8) { rng.range(-2.0, 2.0) } else { rng.range(-10.0, 10.0) }).collect();
+        xs.extend_from_slice(&[0.0, 1.0, -1.0, 2.0, -2.0]);
+        let regime = "predict:direct";
+        rep.case(regime);
+        rep.distinct(Hasher::new().s(regime).fs(&coef).u(xs.len() as u64).finish(), d >= 1);
+        check_predict(rep, regime, &coef, &xs);
+        // integer coefficients at integer points are exact
+        let ic: Vec<f64> = (0..=d).map(|_| rng.int(-9, 9) as f64).collect();
+        let ix: Vec<f64> = (-3..=3).map(|v| v as f64).collect();
+        let mut mdl = PolynomialRegressor::new(d);
+        mdl.coef = ic.clone();
+        if let Ok(got) = guard(|| mdl.predict(&ix)) {
+            let exp: Vec<f64> = ix.iter().map(|&x| ic.iter().enumerate().map(|(j, c)| c * x.powi(j as i32)).sum::<f64>()).collect();
+            rep.check("C14.predict.exact_integer", regime, got == exp, || json!({"coef": jf(&ic), "x": jf(&ix), "observed": jf(&got), "expected": jf(&exp)}));
+        }
+    });
+    for k in KINDS {
+        rep.require(&format!("fit:{}:noisy", k), 1);
+        rep.require(&format!("checked:{}", k), 1);
+    }
+    rep.require("fit:uniform:exact", 1);
+    rep.require("exact-integer", 1);
+    rep.require("n=d+1", 1);
+    rep.require("predict:direct", 1);
+    for d in 0..7 {
+        rep.require(&format!("deg={}", d), 1);
+    }
 }
